@@ -44,7 +44,10 @@ func (c *Check) expiredBatchRules(prefix string, which map[string]bool) {
 	bad := map[string][]string{}
 	add := func(k, msg string, pa *Path) { bad[k] = append(bad[k], msg+" (path ending "+c.pos(pa.RetPos)+")") }
 	nNext, nDel, nKeep := 0, 0, 0
-	for _, pa := range c.P.PathsOf(f) {
+	roleEff := func(e *Eff) bool {
+		return e.Kind == "store" && ((e.Op == "Delete" && (e.Family == "0x08" || e.Family == "0x09" || e.Family == "0x11")) || (e.Op == "Set" && (e.Family == "0x10" || e.Family == "0x08")))
+	}
+	for _, pa := range c.decisionPaths(f, roleEff) {
 		af := pa.AllFacts()
 		// the context value after completion (what is stored and tested)
 		var X *Term
@@ -255,6 +258,24 @@ func (c *Check) startRules(prefix string) {
 			}
 		}
 		none := af.Has(pe.Not()) && af.Has(pn.Not())
+		// the pointers may be tested without the named getters (through a queue accessor, or on the store itself):
+		// any test of the presence of the 0x11 / 0x12 record of this id counts
+		les, lns := c.presenceLeaves(af, "0x11", id), c.presenceLeaves(af, "0x12", id)
+		for _, l := range append(append([]*Term{}, les...), lns...) {
+			if af.Holds(l, true) {
+				pending = true
+			}
+		}
+		for _, le := range les {
+			for _, ln := range lns {
+				if af.Holds(mk("||", le, ln), true) {
+					pending = true
+				}
+				if af.Holds(le, false) && af.Holds(ln, false) {
+					none = true
+				}
+			}
+		}
 		ok2 := (pending && enq == nil) || (none && enq != nil)
 		d := fmt.Sprintf("pending expiry/new-batch=%v, both absent=%v, enqueued=%v", pending, none, enq != nil)
 		c.req(ok2, prefix+".start.pending-or-enqueue", unitConstruct(f, "start:"+d), pa.RetPos,
@@ -545,4 +566,51 @@ func (c *Check) queueDeleters(prefix string) {
 	}
 	check("EndBlocker", c.P.SummaryOf(u.EndBlocker))
 	c.req(n >= 4, prefix+".queue-delete", "queue-deletions", token.NoPos, fmt.Sprintf("%d entry-level queue deletions", n))
+}
+
+// presenceLeaves: the boolean sub-terms of the path's facts that test whether the record of the given family exists
+// under the given identifier — a call of a module function whose only effect is that Has, or the store's Has itself.
+func (c *Check) presenceLeaves(af FactSet, fam string, id *Term) []*Term {
+	leaves := map[string]*Term{}
+	for _, fa := range af {
+		propLeaves(fa.T, leaves)
+	}
+	var keys []string
+	for k := range leaves {
+		keys = append(keys, k)
+	}
+	sort.Strings(keys)
+	var out []*Term
+	for _, k := range keys {
+		t := leaves[k]
+		if t == nil {
+			continue
+		}
+		switch {
+		case strings.HasSuffix(t.Op, "KVStore.Has") && len(t.A) >= 1:
+			key := t.A[len(t.A)-1]
+			for _, v := range c.P.keyVariants(key, 0) {
+				if f2, _ := c.P.keyFamily(v.Key); f2 == fam {
+					if ka := stripConv(stripSpread(v.Key)).A; len(ka) == 1 && stripConv(ka[0]).Eq(stripConv(id)) {
+						out = append(out, t)
+					}
+				}
+			}
+		default:
+			g := c.P.FuncNamed(t.Op)
+			if g == nil || !g.isHandWritten() || g.Body == nil || c.P.pathsBusy[g] {
+				continue
+			}
+			effs := c.P.SummaryOf(g).Effs
+			if len(effs) == 1 && effs[0].Kind == "store" && effs[0].Op == "Has" && effs[0].Family == fam {
+				for _, a := range t.A {
+					if stripConv(a).Eq(stripConv(id)) {
+						out = append(out, t)
+						break
+					}
+				}
+			}
+		}
+	}
+	return out
 }
